@@ -137,6 +137,12 @@ pub fn step_strategy(reg: Reg, class_c: bool, allow_join: bool) -> impl Strategy
 /// a subset of them, a re-join whose CFList leaves some of the five entries at 0 (removing those channels
 /// while the mask survives), then traffic. `k` enumerates (enabled subset 1..=31) x (kept entries 0..=31).
 pub fn rejoin_cflist_history(region: RegionId, front: FrontKind, seed: u64, k: usize) -> History {
+    rejoin_cflist_history_with(region, front, seed, k, false)
+}
+
+/// `marks`: the first session also changes the RX1 downlink frequency of one CFList channel and the
+/// data-rate range of another (DlChannelReq / NewChannelReq) before the re-join.
+pub fn rejoin_cflist_history_with(region: RegionId, front: FrontKind, seed: u64, k: usize, marks: bool) -> History {
     use crate::drive::net::{Cmd, Recipe};
     use verif_core::oracle::refcodec::RefCfList;
     let reg = Reg::from_name(region.name()).unwrap();
@@ -150,7 +156,17 @@ pub fn rejoin_cflist_history(region: RegionId, front: FrontKind, seed: u64, k: u
     let mask: u16 = (0..5).filter(|i| subset & (1 << i) != 0).fold(0u16, |m, i| m | (1 << (nd + i)));
     let steps = vec![
         Step::Join(RxPlan::rx1(ja(0x1F, 1))),
-        Step::Send { port: 1, len: 1, confirmed: false, rx: RxPlan::rx1(Recipe::auth_cmds(1, vec![Cmd::LinkAdrReq { dr: 15, txp: 15, mask, cntl: 0, nbtrans: 1 }])) },
+        Step::Send { port: 1, len: 1, confirmed: false, rx: RxPlan::rx1(Recipe::auth_cmds(1, if marks {
+            // the downlink also leaves marks on two of the CFList channels: another RX1 downlink
+            // frequency, another data-rate range
+            vec![
+                Cmd::LinkAdrReq { dr: 15, txp: 15, mask, cntl: 0, nbtrans: 1 },
+                Cmd::DlChannelReq { idx: (nd + k % 5) as u8, freq: fr[(k + 1) % 5] * 100 },
+                Cmd::NewChannelReq { idx: (nd + (k + 2) % 5) as u8, freq: fr[(k + 2) % 5] * 100, dr_range: 0x30 },
+            ]
+        } else {
+            vec![Cmd::LinkAdrReq { dr: 15, txp: 15, mask, cntl: 0, nbtrans: 1 }]
+        })) },
         Step::Send { port: 1, len: 1, confirmed: false, rx: RxPlan::default() },
         Step::Join(RxPlan::rx1(ja(kept, 2))),
         Step::Silence(3),
